@@ -6,7 +6,7 @@ Driver of C08. Payload (space separated; see go/cmd/harness/c08.go):
   `node = Z | N <name-hex> <binding> <ld> <tok> <nmeta> {<P|Q|O> <val-hex>}* <nchildren> <node>*`,
   `tok = - | T <id> <val-hex> <raw> <identifier> <prefixNewlines> <line> <col>` —
 the AST the REAL parser produced for the source. Result:
-  `txt=<hex of the model printer's text> rt=ok|diff|* idem=ok|diff|* [ff=ok] [beh=ok]`
+  `txt=<hex of the model printer's text> rt=ok|diff|noparse|* idem=ok|diff|na|* [eqm=ok|diff] [ff=ok] [beh=ok]`
 `rt`/`idem` are what the theorems predict (`ok`), except for the classes listed below, where the code as
 it is deviates (`diff`, with `kf=` and `spec=`) or where no prediction is made (`*`; Go prints `*` for the
 same structurally defined classes and only counts its observations).
@@ -71,10 +71,11 @@ partial def countNodes (n : Node) : Nat :=
 def hasRawString (n : Node) : Bool :=
   anyNode (fun x => match x.tok with | some t => t.id = tSTRING && !t.allowEscapes | none => false) n
 
-/-- known finding `mul-right-brackets`: a times node whose right child is times or div -/
+/-- known finding `mul-right-brackets`: a times node whose right child is times or div with a pure product
+    chain on its left spine (fix C08-product-chain-brackets: otherwise the brackets are printed) -/
 def hasMulRight (n : Node) : Bool :=
   anyNode (fun x => x.name = "times" && (match x.children with
-    | [_, some r] => (r.name = "times" || r.name = "div") && r.children.length = 2
+    | [_, some r] => (r.name = "times" || r.name = "div") && r.children.length = 2 && isProductChain r x.binding
     | _ => false)) n
 
 def hasPreComment (n : Node) : Bool := anyNode (fun x => x.metas.any (·.pre)) n
@@ -92,6 +93,12 @@ def occurrences (pat before : Txt) : Txt → Txt → Bool × Bool → Bool × Bo
         | _ => (acc.1, true)
       else acc
     occurrences pat before cs (c :: seenRev) acc
+
+/-- a raw string literal whose text contains `{{` (behaviour may change: consequence of raw-string-kind) -/
+def hasRawInterp (n : Node) : Bool :=
+  anyNode (fun x => match x.tok with
+    | some t => t.id = tSTRING && !t.allowEscapes && (occurrences [123, 123] [] t.val [] (false, false) != (false, false))
+    | none => false) n
 
 /-- a # comment that is NOT (attached to an identifier / number leaf and printed directly behind that
     token at the end of a line); only such a comment is read back onto the same token -/
@@ -216,6 +223,12 @@ partial def chainBreak (x : Node) (seen : Bool) : Bool × Bool :=
 def hasPostfixAfterNewline (n : Node) : Bool :=
   anyNode (fun x => x.name = "identifier" && (chainBreak x false).1) n
 
+/-- class `bare-return-at-end`: the printed text ends with a bare `return` (the last statement of the program);
+    without a trailing newline the parser reads the end of the input as the value of the return -/
+def endsWithBareReturn (n : Node) : Bool :=
+  let bare (x : Node) := x.name = "return" && x.children.isEmpty
+  bare n || (n.name = "statements" && (match n.children.getLast? with | some (some c) => bare c | _ => false))
+
 def runCase (payload : String) : String :=
   match payload.splitOn " " with
   | _src :: flags :: rest =>
@@ -239,8 +252,9 @@ def runCase (payload : String) : String :=
           match Ecal.C08.toExpr ast #[] with
           | some (e, atoms) =>
             let toks := Ecal.C08.printToks Ecal.C08.realPowers Ecal.C08.realExc e
-            let t := Ecal.C08.render atoms toks
-            let exc := Ecal.C08.hasExc Ecal.C08.realExc e
+            -- PrettyPrint trims the whole text (an indented keyword at the very start loses its indent)
+            let t := trimSpace (Ecal.C08.renderP atoms none (Ecal.C08.annot Ecal.C08.realPowers Ecal.C08.realExc e))
+            let exc := Ecal.C08.hasExc Ecal.C08.realPowers Ecal.C08.realExc e
             if t != txt then (some ("MODEL-DRIFT expr=" ++ hexEnc t ++ " full=" ++ hexEnc txt), true)
             else if exc != mul then (some "CLASSIFIER-DRIFT", true)
             else if !exc && Ecal.C08.run Ecal.C08.realPowers (4 * toks.length + 4) 0 toks != some (e, []) then
@@ -250,19 +264,26 @@ def runCase (payload : String) : String :=
         match drift with
         | some d => d
         | none =>
-          let rt := if post then "*" else if raw || mul || sign then "diff" else "ok"
-          let idem := if wild then "*" else if sign then "diff" else "ok"
+          let eret := endsWithBareReturn ast
+          let rt := if post then "*" else if eret then "noparse" else if raw || mul || sign then "diff" else "ok"
+          let idem := if wild then "*" else if eret then "na" else if sign then "diff" else "ok"
+          -- inside the classes with rt=diff the trees must agree modulo the known LOCAL difference (raw flag,
+          -- product association); a merged statement (sign / parenthesis start) is a genuine difference
+          let eqm := if sign then "diff" else "ok"
           let line (rt : String) := "txt=" ++ hexEnc txt ++ " rt=" ++ rt ++ " idem=" ++ idem ++
-            (if ff then " ff=ok" else "") ++ (if ev = "1" && rt = "ok" then " beh=ok" else "")
+            (if rt = "diff" then " eqm=" ++ eqm else "") ++
+            (if ff then " ff=ok" else "") ++
+            (if ev = "1" && (rt = "ok" || (rt = "diff" && eqm = "ok")) && !hasRawInterp ast then " beh=ok" else "")
           let kf : Option String :=
             if post then some "newline-inside-statement"
+            else if eret then some "bare-return-at-end"
             else if sign then some "stmt-starts-with-sign"
             else if raw then some "raw-string-kind"
             else if mul then some "mul-right-brackets"
             else if wild then some "layout-not-idempotent"
             else none
           let specRt := if post then "ok" else "ok"
-          let specLine := "txt=" ++ hexEnc txt ++ " rt=" ++ specRt ++ " idem=ok" ++ (if ff then " ff=ok" else "") ++ (if ev = "1" then " beh=ok" else "")
+          let specLine := "txt=" ++ hexEnc txt ++ " rt=" ++ specRt ++ " idem=ok" ++ (if ff then " ff=ok" else "") ++ (if ev = "1" && !hasRawInterp ast then " beh=ok" else "")
           line rt
             ++ (if countNodes ast ≥ 3 then "\tnt=1" else "")
             ++ (if xc then "\txc=1" else "")
